@@ -113,6 +113,19 @@ def rule_b(prog, rep):
                     and any(b.op == "call" and tm.callee_name(b) == "collections.defaultdict" for b in tm.alts(ev["recv"].args[0])):
                 n += 1
                 rep.proved("R-C01-b", "%s@%d" % (fi.fq, ev.line), "%s: defaultdict(list)[mapped key].append(row)" % qual, "accumulates")
+        # a dict COMPREHENSION keyed by a mapped value cannot accumulate: a later pair overwrites an earlier one
+        seen = set()
+        for ev in I.events:
+            for v in list(ev.d.values()) + [c for c, p in ev.guards]:
+                if not isinstance(v, T):
+                    continue
+                for x in tm.walk(v):
+                    if x.op == "comp" and x.args[0] == "dict" and x not in seen and x.args[1].op == "tuple" and len(x.args[1].args) == 2 and is_mapped(x.args[1].args[0]):
+                        seen.add(x)
+                        n += 1
+                        rep.violated("R-C01-b", "%s@%d" % (fi.fq, ev.line), "%s: dict comprehension keyed by a mapped value" % qual,
+                                     "{mapping[k]: v for ...} keeps only the LAST pair for an output value that several input values map to; the docstring allows many-to-one mappings, which need the values added / merged",
+                                     witness={"inputs": "from_array([0,0,0,0,1,1,1,2,2,2], mapping={0: 0, 1: 5, 2: 5}): the count of 5 is 3, not 6, so 0 is chosen as common although 5 is more frequent"})
     rep.floor("R-C01-b", 5, n)
 
 
